@@ -274,6 +274,15 @@ def gen_texts(ctx):
             add("-%.17g" % x, "pow2adjacent")
             if -20 <= k <= 60:
                 add(("%.25f" % x).rstrip("0").rstrip(".") if k < 53 else "%d" % int(x), "pow2adjacent")
+    # G8c exponents written with leading zeros (9..14 exponent digits whose VALUE is small): the digit loop must
+    # stop on the value, not on the number of digits (seeded C09-h1 / C06-h1)
+    for m in ["1", "2", "5", "1.5", "0.25", "12345678901234567890", "9007199254740993"]:
+        for zeros in (1, 7, 8, 9, 10, 11, 13, 20):
+            for ev in ("0", "1", "2", "05", "40", "308", "400"):
+                for sg in ("", "+", "-"):
+                    for E in ("e", "E"):
+                        add(m + E + sg + "0" * zeros + ev, "padded-exponent")
+                        add("-" + m + E + sg + "0" * zeros + ev, "padded-exponent")
     # G10 integer mantissas of 18..21 digits (around the 19-digit window and the 2^64 boundary) followed by
     # every exponent spelling: e E e+ E+ e- E- with small exponents
     for D in ["999999999999999999", "1000000000000000000", "9999999999999999999", "10000000000000000000", "18446744073709551615",
